@@ -309,6 +309,20 @@ pub fn judge_id(ctx: &mut Ctx, r: &PortableRegistry, id: u32, replay: &dyn Fn() 
 }
 
 pub fn run(ctx: &mut Ctx) {
+    for (i, prog) in recursive_gallery().into_iter().enumerate() {
+        if !ctx.mine(i as u64) {
+            continue;
+        }
+        let r = sim::simulate(&prog).registry;
+        let regj = reg::to_json(&r);
+        let fp = reg::fingerprint(&r);
+        for t in 0..r.types.len() as u32 {
+            ctx.begin_case(&format!("c13 gallery {i} id {t}"));
+            let nt = judge_id(ctx, &r, t, &|| json!({"kind": "c13", "registry": regj, "id": t}));
+            ctx.case(hash_of(&(fp, t)), nt);
+        }
+        ctx.count("gallery_registries", 1);
+    }
     let n = ctx.tier.pick(1200u64, 40_000u64);
     for case in 0..n {
         if !ctx.mine(case) {
